@@ -10,4 +10,6 @@ TESTS = [
 ASSUMPTIONS = [
     "NFSv4.0 locks: the single byte at offset 2^64-1 is not representable by the lock table (exclusive end 2^64-1 means 'to end of file'); ranges never start there and the model ignores that byte",
     "NFSv4.0 locks: the lock table is keyed by lock-owner only, so when one lock-owner has lock state on a file through the opens of two open-owners, CLOSE (or expiry) of one of these opens frees all bytes of that lock-owner on the file (semantics of the fix db7d309, same as the NFSv4.1 program)",
+    "NFSv4.0 locks: all client simulators use the same open-owner and lock-owner byte strings (oo0, oo1, lo0, lo1); owners are scoped by client ID (RFC 7530 9.1.1), so the model keys them by (client registration, bytes)",
+    "NFSv4.0 locks: after every CLOSE, LOCKU, RELEASE_LOCKOWNER, SETCLIENTID_CONFIRM and every clock step or request after which a lease has run out (and twice in the final drain) the lock table of every file that ever carried a lock is read back with LOCKT: by an observer (a client of its own whose lock-owner never locks, so every lock conflicts with it; WRITE and READ) and by every lock-owner the model says holds bytes there (WRITE); units the model expects to be free of foreign locks are probed as maximal runs (one WRITE LOCKT succeeds iff the whole run is free), all others unit by unit. These LOCKTs are real requests: they enter the server (reclaiming what has expired) and renew the lease of the client they name, and the model accounts for that",
 ]
